@@ -64,15 +64,27 @@ def build_and_test(wt, out):
 def main():
     ap = argparse.ArgumentParser()
     ap.add_argument("wt"); ap.add_argument("m"); ap.add_argument("name"); ap.add_argument("prop")
+    ap.add_argument("--clean-cmd", default=""); ap.add_argument("--patched-cmd", default=""); ap.add_argument("--both-cmd", default="")
     ap.add_argument("--checks", default=""); ap.add_argument("--runs", type=int, default=4000); ap.add_argument("--skip-unit", action="store_true")
     a = ap.parse_args()
     wt, mdir = a.wt, os.path.join(a.wt, "seeded", a.m)
     rec = {}
     sh("git checkout -- .", cwd=wt)
     runsh = os.path.join(mdir, "run.sh")
-    if os.path.exists(runsh):
-        rc_c, out_c = sh("bash seeded/%s/run.sh clean" % a.m, cwd=wt)
-        rc_p, out_p = sh("bash seeded/%s/run.sh patched" % a.m, cwd=wt)
+    if a.both_cmd:
+        # one script that runs the demo on the unchanged tree, applies the patch, runs it again and prints "exit status N" after each
+        import re
+        rc_b, out_b = sh(a.both_cmd, cwd=wt, timeout=3600)
+        sh("git checkout -- .", cwd=wt)
+        st = re.findall(r"exit(?: status)?[:=]? *(\d+)", out_b)
+        rc_c, rc_p = (int(st[0]), int(st[1])) if len(st) >= 2 else (None, None)
+        half = out_b.find("exit status") + 20
+        rec["demo"] = {"cmd": a.both_cmd, "clean_exit": rc_c, "patched_exit": rc_p, "clean_tail": out_b[max(0, half - 400):half], "patched_tail": out_b[-700:]}
+        print("demo: clean rc=%s patched rc=%s" % (rc_c, rc_p))
+    elif os.path.exists(runsh) or a.clean_cmd:
+        rc_c, out_c = sh(a.clean_cmd or "bash seeded/%s/run.sh clean" % a.m, cwd=wt, timeout=3600)
+        sh("git checkout -- .", cwd=wt)
+        rc_p, out_p = sh(a.patched_cmd or "bash seeded/%s/run.sh patched" % a.m, cwd=wt, timeout=3600)
         sh("git checkout -- .", cwd=wt)
         rec["demo"] = {"clean_exit": rc_c, "patched_exit": rc_p, "clean_tail": out_c[-300:], "patched_tail": out_p[-600:]}
         print("demo: clean rc=%s patched rc=%s" % (rc_c, rc_p))
